@@ -34,9 +34,9 @@ def run(res):
                         "files with an open writer at the time of the fault, and the target of the faulted operation, count as 'being modified'"]
     ok, why = vlib.proof_side(res, PID)
     exe = vlib.build_harness("asan")
-    nh = 9 if res.tier == "quick" else 72
+    nh = 12 if res.tier == "quick" else 96
     per = 25 if res.tier == "quick" else 400
-    mix = [("file", {"nops": 30}), ("seqread", {}), ("seekread", {}), ("names", {"nops": 30}), ("file", {"nops": 30, "nfiles": 2}), ("seekread", {}), ("seqread", {}), ("extbound", {}), ("dirc", {"nops": 20})]
+    mix = [("file", {"nops": 30}), ("chainops", {}), ("seqread", {}), ("seekread", {}), ("names", {"nops": 40}), ("seqread", {}), ("file", {"nops": 30, "nfiles": 2}), ("chainops", {}), ("seekread", {}), ("dirc", {"nops": 20}), ("seqread", {}), ("extbound", {})]
     jobs = []
     for i in range(nh):
         prof, kw = mix[i % len(mix)]
@@ -50,10 +50,25 @@ def run(res):
         counts = access_counts(cb)
         cand = [(j, k) for j in range(6, len(ops)) for k in range(counts[j])]
         rng.shuffle(cand)
+        if prof in ("names", "dirc", "chainops"):
+            # namespace operations rewrite blocks of OTHER entries (chain predecessors, parents, cache blocks): for a few of
+            # them EVERY access is made to fail in turn, so that each read-modify-write of a neighbour is hit
+            nsops = [j for j in range(6, len(ops)) if ops[j].split()[0] in ("remove", "rename", "mkdir", "comment", "access") and counts[j] > 2]
+            rng.shuffle(nsops)
+            first = [(j, k) for j in nsops[:8 if res.tier == "quick" else 40] for k in range(counts[j])]
+            cand = first + [c for c in cand if c not in set(first)]
+            per_here = max(per, len(first))
+        elif prof in ("seqread", "seekread"):
+            # the handle under test is the one that reads: fail accesses of its read/seek calls first
+            rd = [c for c in cand if ops[c[0]].split()[0] in ("read", "seek") and ops[c[0]].split()[1] == "2"]
+            cand = rd + [c for c in cand if c not in set(rd)]
+            per_here = per + 15
+        else:
+            per_here = per
         dt = hist.dostype_of(ops)
-        for n_, (j, k) in enumerate(cand[:per]):
+        for n_, (j, k) in enumerate(cand[:per_here]):
             # multi-fault patterns: two or three consecutive failing accesses (a retry or a fallback path fails as well)
-            m = 1 if n_ % 5 < 3 else (2 if n_ % 5 == 3 else 3)
+            m = 1 if (n_ % 5 < 3 or prof in ("names", "dirc", "chainops")) else (2 if n_ % 5 == 3 else 3)
             jobs.append((ops, cb, j, k, dt, m))
     from concurrent.futures import ThreadPoolExecutor
     def one(job):
